@@ -2,6 +2,7 @@ package main
 
 import (
 	"fmt"
+	"sort"
 	"strings"
 	"time"
 
@@ -23,6 +24,124 @@ import (
 func runSpecials(w *world, rep *vevid.Report) {
 	sameTick(w, rep)
 	emptyMetaFlush(w, rep)
+	partialFields(w, rep)
+}
+
+// partialFields: the rows of one series do not all carry the same fields, so table files (and memory databases)
+// hold different field subsets of the metric. Exhaustive over: the field subset of two writes ({sum}, {max},
+// {sum,max} each), the slot of the second write (same / next), what happens between them ({nothing, flush, reopen})
+// and after them ({nothing, flush}) x the select lists {vsum}, {vmax}, {vsum,vmax}.
+func partialFields(w *world, rep *vevid.Report) {
+	subsets := [][]string{{"sum"}, {"max"}, {"sum", "max"}}
+	write := func(metric string, slot string, v float64, fts []string, off int) {
+		w.newTick()
+		p := vbox.MultiPoint{Metric: metric, Tags: map[string]string{"host": "a"}, Timestamp: w.base + slotOf(slot) + int64(off+1)*1000}
+		for _, ft := range fts {
+			p.Fields = append(p.Fields, vbox.FieldValue{Name: fieldName(ft), Type: ft, Value: v})
+		}
+		if err := w.box.WriteMulti(shardID, p); err != nil {
+			vevid.Fatal("special write: %v", err)
+		}
+		w.lastCreate = fasttime.UnixNano()
+	}
+	do := func(op string) {
+		switch op {
+		case "F":
+			if err := w.box.Flush(shardID, w.bothFamilies()); err != nil {
+				vevid.Fatal("special flush: %v", err)
+			}
+			w.flushedSinceOpen = true
+		case "R":
+			if err := w.reopen(); err != nil {
+				vevid.Fatal("special reopen: %v", err)
+			}
+			w.flushedSinceOpen = false
+		}
+	}
+	for _, s1 := range subsets {
+		for _, s2 := range subsets {
+			for _, slot2 := range []string{"same", "next"} {
+				for _, mid := range []string{"", "F", "R"} {
+					for _, end := range []string{"", "F"} {
+						if w.timeouts >= 3 {
+							return
+						}
+						w.seq++
+						metric := fmt.Sprintf("%sp%d", w.prefix, w.seq)
+						write(metric, "same", 4, s1, 0)
+						do(mid)
+						write(metric, slot2, 16, s2, 1)
+						do(end)
+						// expected cells per field
+						exp := map[string]map[int64]float64{"sum": {}, "max": {}}
+						add := func(ft string, t int64, v float64) {
+							old, ok := exp[ft][t]
+							switch {
+							case !ok:
+								exp[ft][t] = v
+							case ft == "sum":
+								exp[ft][t] = old + v
+							case v > old:
+								exp[ft][t] = v
+							}
+						}
+						for _, ft := range s1 {
+							add(ft, slotOf("same"), 4)
+						}
+						for _, ft := range s2 {
+							add(ft, slotOf(slot2), 16)
+						}
+						history := fmt.Sprintf("a@same{%s} %s a@%s{%s} %s", strings.Join(s1, ","), mid, slot2, strings.Join(s2, ","), end)
+						scenario := fmt.Sprintf("partial-fields/%s|%s|%s", strings.Join(s1, "+"), mid+end, strings.Join(s2, "+"))
+						for _, sl := range subsets {
+							rep.Evaluations++
+							q := Query{Range: 0, Ivl: 0, GB: true}
+							want := map[string]float64{}
+							for _, ft := range sl {
+								q.Sels = append(q.Sels, Sel{F: ft})
+								for t, v := range exp[ft] {
+									want[fmt.Sprintf("host=a|%s|%d", fieldName(ft), t)] = v
+								}
+							}
+							got, err := w.query(q, metric)
+							var bad []string
+							if err != nil {
+								if isTimeout(err) {
+									w.timeouts++
+								}
+								if len(want) > 0 || isTimeout(err) {
+									bad = append(bad, "query failed: "+err.Error())
+								}
+							} else {
+								for k, v := range want {
+									if g, ok := got[k]; !ok {
+										bad = append(bad, "missing "+k)
+									} else if g != v {
+										bad = append(bad, fmt.Sprintf("%s = %v want %v", k, g, v))
+									}
+								}
+								for k, g := range got {
+									if _, ok := want[k]; !ok {
+										bad = append(bad, fmt.Sprintf("unexpected %s = %v", k, g))
+									}
+								}
+							}
+							rep.Outcome(fmt.Sprintf("special:partial-fields:%d", len(want)))
+							if len(want) > 0 {
+								rep.DistinctNontrivial++
+							}
+							if len(bad) > 0 {
+								sort.Strings(bad)
+								rep.Count("viol partial-field-places "+scenario, 1)
+								rep.Violate(vevid.Violation{Clause: "partial-field-places", Scenario: scenario, Site: "scripted", Replay: Case{Special: "all"},
+									Detail: fmt.Sprintf("%s\nwant: %v\nlindb: %s\nhistory: %s\nquery: %s", strings.Join(bad, "; "), want, renderGot(got), history, q.sql("M"))})
+							}
+						}
+					}
+				}
+			}
+		}
+	}
 }
 
 func (w *world) writePoint(metric, series string, t int64, v float64, off int) error {
